@@ -273,47 +273,60 @@ def fam_long(rng):
                 sentence=sentence, alphabet=list(letters) + ["5"])
 
 
-def fam_flags(rng):
-    """a lexer whose behaviour depends on the flags"""
-    variant = rng.choice(["ci", "dot", "ml", "greed", "iw", "nums", "posix", "cmt"])
+FLAG_VARIANTS = ["ci", "dot", "ml", "greed", "iw", "posix", "uni", "nums", "cmt"]
+# the value of the variant's flag that differs from the default
+NON_DEFAULT = {"ci": True, "dot": False, "ml": False, "greed": True, "iw": True, "posix": True, "uni": False, "cmt": True}
+
+
+def fam_flags(rng, variant=None, value=None, via=None):
+    """a lexer whose behaviour depends on ONE flag (rules + inputs sensitive to it); `value` defaults
+    to the non-default value of the flag most of the time, `via` is 'section' or 'api'"""
+    variant = variant or rng.choice(FLAG_VARIANTS)
     sec, api = {}, {}
-    where = sec if rng.random() < 0.6 else api
+    via = via or ("section" if rng.random() < 0.6 else "api")
+    where = sec if via == "section" else api
+    if value is None and variant in NON_DEFAULT:
+        value = NON_DEFAULT[variant] if rng.random() < 0.75 else (not NON_DEFAULT[variant])
     tokens = [("KW", "select", None), ("ID", "[a-z]+", None), ("INT", "[0-9]+", None)]
     skip = ["[ \\t]+"]
     extra_inputs = []
     if variant == "ci":
-        where["case_insensitive"] = True
+        where["case_insensitive"] = value
         extra_inputs = ["SeLeCt Foo 12", "SELECT x", "select ABC"]
     elif variant == "dot":
-        where["dot_matches_new_line"] = rng.random() < 0.5
-        tokens = [("ANG", "~.*~", None)] + tokens
+        where["dot_matches_new_line"] = value
+        tokens = [("ANG", "~.*~", None), ("AEOL", "a$", None), ("A", "a", None), ("KW", "select", None),
+                  ("ID", "[b-z]+", None), ("INT", "[0-9]+", None)]
         skip = ["[ \\t\\n]+"]
-        extra_inputs = ["~a\nb~ x", "~ab~ select 1", "x ~q\n\n~ 2"]
+        extra_inputs = ["~a\nb~ x", "~ab~ select 1", "x ~q\n\n~ 2", "a\n", "a\nb a"]
     elif variant == "ml":
-        where["multi_line"] = rng.random() < 0.5
-        tokens = [("AEOL", "a$", None), ("A", "a", None), ("KW", "select", None), ("ID", "[b-z]+", None), ("INT", "[0-9]+", None)]
+        where["multi_line"] = value
+        tokens = [("AEOL", "a$", None), ("A", "a", None), ("ANG", "~.*~", None), ("KW", "select", None),
+                  ("ID", "[b-z]+", None), ("INT", "[0-9]+", None)]
         skip = ["[ \\t\\n]+"]
-        extra_inputs = ["a\nb", "a a\nselect a", "a"]
+        extra_inputs = ["a\nb", "a a\nselect a", "a", "a\n", "~x\ny~ a\nb"]
     elif variant == "greed":
-        where["swap_greed"] = True
+        where["swap_greed"] = value
         tokens = [("AS", "a+", None), ("KW", "select", None), ("ID", "[b-z]+", None), ("INT", "[0-9]+", None)]
         extra_inputs = ["aaa b", "a select aa 1"]
     elif variant == "iw":
-        where["ignore_whitespace"] = True
+        where["ignore_whitespace"] = value
         tokens = [("AB", "a b", None), ("KW", "select", None), ("ID", "[c-z]+", None), ("INT", "[0-9]+", None)]
-        extra_inputs = ["ab ab", "ab select 3"]
+        extra_inputs = ["ab ab", "ab select 3", "a b"]
+    elif variant == "uni":
+        where["unicode"] = value
+        tokens = [("W", "\\w+", None), ("E", "\u00e9+", None)]
+        extra_inputs = ["a\u00e9 b", "\u00e9\u00e9 select", "x1 \u00e9y"]
     elif variant == "nums":
         where["size_limit"] = rng.choice([1048576, 2097152])
-        (sec if rng.random() < 0.5 else api)["dfa_size_limit"] = rng.choice([1048576, 4194304])
+        (sec if rng.random() < 0.5 else api)["dfa_size_limit"] = rng.choice([3145728, 4194304])
         (sec if rng.random() < 0.5 else api)["nest_limit"] = rng.choice([50, 100])
-        if rng.random() < 0.5:
-            sec["unicode"] = True
         if rng.random() < 0.5:
             sec["octal"] = True
             tokens = [("OA", r"\141", None), ("KW", "select", None), ("ID", "[b-z]+", None), ("INT", "[0-9]+", None)]
         extra_inputs = ["a select 1", "select x 2"]
     elif variant == "posix":
-        where["posix_escapes"] = rng.random() < 0.5
+        where["posix_escapes"] = value
         tokens = [("WB", r"x\b", None), ("KW", "select", None), ("ID", "[a-z]+", None), ("INT", "[0-9]+", None)]
         extra_inputs = ["x select", "x\x08 y", "xy x 1"]
     elif variant == "cmt":
@@ -328,6 +341,33 @@ def fam_flags(rng):
     return dict(family="flags:" + variant, tokens=tokens, skip=skip, rules=rules, start="S", avoid_insert=[],
                 sentence=sentence, alphabet=["select", "q", "7", "%"], lex_section=sec, lex_api=api,
                 extra_inputs=extra_inputs)
+
+
+def static_flag_specs():
+    """header settings for the static check of the generated lexerdef(): for EVERY flag a header in
+    which only that flag is set (booleans: to each value, hence to its non-default value; numbers: to a
+    value no other flag has), through the %grmtools section and through the builder API; and every pair
+    of boolean flags with differing values.  (flags dict, via)"""
+    specs = []
+    for via in ("section", "api"):
+        for k in BOOL_FLAGS:
+            for v in (True, False):
+                specs.append(({k: v}, via))
+        for i, k in enumerate(NUM_FLAGS):
+            specs.append(({k: [1048576, 3145728, 77][i]}, via))
+        specs.append((dict(zip(NUM_FLAGS, [2097152, 4194304, 60])), via))
+    for i, a in enumerate(BOOL_FLAGS):
+        for b in BOOL_FLAGS[i + 1:]:
+            specs.append(({a: True, b: False}, "section"))
+            specs.append(({a: False, b: True}, "api"))
+    return specs
+
+
+def static_lexer(flags, via):
+    """(lexer text, api flags): rules valid under every flag setting"""
+    sec = flags if via == "section" else {}
+    txt = flag_section(sec) + "%%\n" + ("// comment\n" if sec.get('allow_wholeline_comments') else "") + 'a "A"\n[0-9]+ "INT"\n_+ ;\n'
+    return txt, ({} if via == "section" else dict(flags))
 
 
 def fam_insert(rng):
